@@ -187,11 +187,14 @@ theorem multi_read_terminated (n idx start : Nat) (hn : n ≠ 1) (s : St σ)
       Event.cmd (frame CMD18 start) ∈ pre ∧ AllPolls post :=
   Lemmas.Sd.read_multi_terminated B n idx start hn s hstart r1 s1 h18
 
-/-- A multi-block write that succeeds ends with the stop token 0xFD, sent right after a poll
-that showed the card not busy. -/
+/-- A multi-block write that succeeds has sent the stop token 0xFD right after a poll that showed
+the card not busy; after the stop token only the polls of the final `wait_not_busy` follow (the
+driver waits for the card to finish programming), and the last of them showed the card not busy
+again. -/
 theorem multi_write_terminated (blocks : List Bytes) (idx : Nat) (hne : ∀ b, blocks ≠ [b]) (s : St σ)
     (hok : (write B blocks idx s).1 = .ok ()) :
-    ∃ pre, evsNew s (write B blocks idx s).2 = pre ++ [Event.poll 255, Event.byte 0xFD] :=
+    ∃ pre post, evsNew s (write B blocks idx s).2 = pre ++ [Event.poll 255, Event.byte 0xFD] ++ post ∧
+      AllPolls post ∧ post.getLast? = some (Event.poll 255) :=
   Lemmas.Sd.write_multi_terminated B blocks idx hne s hok
 
 /-! ## Identification before data -/
